@@ -9,6 +9,19 @@ add("C08", "bounded-exhaustive program x configuration enumeration on the implem
     "Every program of the bounded grammars F1 (all operators/builtins x shapes x operand sources) and F2 (all control-flow trees within the node budget, three positions) plus hand-written feature programs is pushed through parse, lower, validate, the one-call API and all four backends under every option set within one deviation of the default; any error is a violation. Exhaustive within the stated bounds; nothing sampled.",
     "Generated programs are valid WGSL by construction; the grammar is conservative (no unreachable code, no spec-debatable forms).", "DESIGN.md §3 C08")
 
+SEM_NOTE = "Trusted base: the reference WGSL evaluator (internal/wref) and the independent target interpreter, both written from the language specifications without reference to naga; spec latitude (inf/nan/subnormal, inexact int->float, tie-breaking) is masked or kept out of the input alphabets; approximate float builtins compared with 2e-4 relative tolerance."
+def sem(pid, be, interp):
+    add(pid, "bounded-exhaustive program x input x configuration enumeration; emitted code executed by an independent %s interpreter and compared with a reference WGSL evaluator" % interp,
+        "Every F1 program (each operator/builtin/conversion x every operand shape x 5 operand sources; boundary-value operand tuples laid over N invocations so that every component position sees every tuple) and every F2 control-flow tree within the node budget (3 positions x 16 control inputs) is compiled by the real pipeline under every %s option set within one deviation of the default; the emitted code is executed and every leaf scalar of every writable buffer is compared with the reference evaluator. Exhaustive within the stated bounds." % be,
+        SEM_NOTE, "DESIGN.md §3 %s" % pid)
+sem("C01", "SPIR-V", "SPIR-V")
+sem("C03", "HLSL", "HLSL")
+sem("C04", "MSL", "MSL/C++14")
+sem("C05", "GLSL", "GLSL")
+add("C10", "bounded-exhaustive fault/input enumeration in isolated worker processes (token strings up to length L, every single-token/byte edit and truncation of seeds, scaling ladders, all valid generated programs)",
+    "Every token string up to length 4 (thorough: 5) over a 24-token alphabet in three syntactic contexts, every single-token edit at every token of every seed, every prefix and hostile-byte substitution at every offset, parametric ladders up to 64 KiB plus fixed cyclic programs, and all valid generated programs are pushed through tokenize, Compile, parse, lower, validate and all five backends in worker processes under an address-space limit and a CPU-time watchdog; a recovered panic, a Go fatal error or exceeding the CPU cap is a violation.",
+    "The quantifier (all byte strings up to 64 KiB) cannot be exhausted; what is exhausted is stated in the evidence. CPU cap: 40 s per input (quick), 120 s (thorough); no wall-clock oracle.", "DESIGN.md §3 C10")
+
 NA = {
 }
 for i in range(1, 20):
